@@ -86,6 +86,7 @@ static void build(TasmanianSparseGrid &g, std::string const &fam, int var, std::
         TypeOneDRule r = want_refine ? rule_rleja : ((var & 1) ? rule_gausslegendre : rule_clenshawcurtis);
         g.makeGlobalGrid(2, outs, want_refine ? 4 : 3, type_level, r);
     }else if (fam == "sequence") g.makeSequenceGrid(2, outs, 4, type_level, (var & 1) ? rule_leja : rule_rleja);
+    else if (fam == "localp" && (var & 2) && !want_refine) g.makeLocalPolynomialGrid(2, outs, 5, (var & 1) ? -1 : 4, rule_localp);   // high / maximal order: generic Lagrange basis, deep points
     else if (fam == "localp")    g.makeLocalPolynomialGrid(2, outs, 3, (var & 1) ? 2 : 1, (var & 1) ? rule_semilocalp : rule_localp);
     else if (fam == "wavelet")   g.makeWaveletGrid(2, outs, (var & 1) ? 1 : 2, (var & 1) ? 3 : 1);
     else if (fam == "fourier")   g.makeFourierGrid(2, outs, 2, type_level);
@@ -209,28 +210,8 @@ static int run_exec(Exec const &E, std::string const &tmp, FILE *out){
     *phase = 2;
     TasmanianSparseGrid twin;
     build(twin, E.fam, E.var, E.state, file, false);
-    std::vector<std::vector<Call>> calls(E.nt);
-    for(int t=0; t<E.nt; t++){
-        for(auto const &o : E.ops[t]){
-            Call c; c.op = o.first; c.arg = o.second; c.eq = false; c.threw = false;
-            bool threw; std::vector<double> ref = call(twin, c.op, c.arg, threw);
-            c.out = ref; c.threw = threw; c.det = true;
-            calls[t].push_back(c);
-        }
-    }
-    // the reference must be a function of the grid state: a second twin has to give the same answers
-    // (it does not when a call reads storage the preparation left unspecified; such a call has no "result when run alone")
-    {
-        TasmanianSparseGrid twin2;
-        build(twin2, E.fam, E.var, E.state, file, false);
-        for(int t=0; t<E.nt; t++){
-            for(auto &c : calls[t]){
-                bool threw; std::string d;
-                std::vector<double> ref2 = call(twin2, c.op, c.arg, threw);
-                if (threw != c.threw || !same(ref2, c.out, d)) c.det = false;
-            }
-        }
-    }
+    // (the calls on the twin are made after the concurrent phase: process-wide state a const call may initialise lazily, e.g. a
+    //  function-local static, must be as cold for the threads as it is for a program that starts with concurrent queries)
     // 3. the concurrent phase on one const reference
     *phase = 3;
     TasmanianSparseGrid const &cg = G;
@@ -260,6 +241,30 @@ static int run_exec(Exec const &E, std::string const &tmp, FILE *out){
     while(ready.load() < E.nt){ }
     go.store(true);
     for(auto &t : th) t.join();
+    // 2b. the same calls made alone on the identical twin (reference results)
+    *phase = 2;
+    std::vector<std::vector<Call>> calls(E.nt);
+    for(int t=0; t<E.nt; t++){
+        for(auto const &o : E.ops[t]){
+            Call c; c.op = o.first; c.arg = o.second; c.eq = false; c.threw = false;
+            bool threw; std::vector<double> ref = call(twin, c.op, c.arg, threw);
+            c.out = ref; c.threw = threw; c.det = true;
+            calls[t].push_back(c);
+        }
+    }
+    // the reference must be a function of the grid state: a second twin has to give the same answers
+    // (it does not when a call reads storage the preparation left unspecified; such a call has no "result when run alone")
+    {
+        TasmanianSparseGrid twin2;
+        build(twin2, E.fam, E.var, E.state, file, false);
+        for(int t=0; t<E.nt; t++){
+            for(auto &c : calls[t]){
+                bool threw; std::string d;
+                std::vector<double> ref2 = call(twin2, c.op, c.arg, threw);
+                if (threw != c.threw || !same(ref2, c.out, d)) c.det = false;
+            }
+        }
+    }
     // 4. serialise
     *phase = 4;
     std::string s = header(E) + ",\"complete\":true,\"sig\":0,\"phase\":4,\"other\":" + std::to_string(other_events.load());
